@@ -35,17 +35,21 @@ class RecordingRegressor(BaseEstimator, RegressorMixin):
     """fit stores copies of what it was given; predict is a deterministic function of
     the stored training set and of the row, so an output identifies the model."""
 
-    def __init__(self, tag=0, yield_fit=0, yield_predict=0, random_state=None):
+    def __init__(self, tag=0, yield_fit=0, yield_predict=0, random_state=None, keep_reference=False):
         self.tag = tag
         self.yield_fit = yield_fit
         self.yield_predict = yield_predict
         self.random_state = random_state          # never used: a seeded base estimator is an ordinary thing to hand to a meta-estimator
+        self.keep_reference = keep_reference      # True: keeps the very array it was given (as KernelRidge keeps X_fit_), no copy
 
     def fit(self, X, y, sample_weight=None):
         self.ordinal_ = _next_ordinal()
         _maybe_yield(self.yield_fit, self.ordinal_)
         X = np.asarray(X)
-        self.seen_X_ = np.array(X, dtype=np.float64, copy=True).reshape(X.shape[0], X.shape[1] if X.ndim > 1 else 1)
+        if self.keep_reference and X.ndim == 2 and X.dtype == np.float64:
+            self.seen_X_ = X
+        else:
+            self.seen_X_ = np.array(X, dtype=np.float64, copy=True).reshape(X.shape[0], X.shape[1] if X.ndim > 1 else 1)
         self.seen_y_ = np.array(y, dtype=np.float64, copy=True)
         self.seen_w_ = None if sample_weight is None else np.array(sample_weight, dtype=np.float64, copy=True)
         w = np.ones(len(self.seen_y_)) if self.seen_w_ is None else self.seen_w_
@@ -275,3 +279,27 @@ class SkewedClassifier(CentroidClassifier):
 
     def decision_function(self, X):
         return CentroidClassifier.decision_function(self, X) + self.shift
+
+
+class StickyRegressor(BaseEstimator, RegressorMixin):
+    """one-feature least squares with a `warm_start` flag that behaves like a forest asked to keep its trees: a second fit of the SAME
+    object learns nothing new.  Code that fits one clone per model it needs never notices the flag."""
+
+    def __init__(self, warm_start=False):
+        self.warm_start = warm_start
+
+    def fit(self, X, y, sample_weight=None):
+        if self.warm_start and hasattr(self, "coef_"):
+            return self
+        X = np.asarray(X, dtype=np.float64).reshape(len(y), -1)
+        y = np.asarray(y, dtype=np.float64)
+        x = X[:, 0]
+        vx = float(((x - x.mean()) ** 2).sum())
+        self.coef_ = float(((x - x.mean()) * (y - y.mean())).sum() / vx) if vx > 0 else 0.0
+        self.intercept_ = float(y.mean() - self.coef_ * x.mean())
+        self.n_features_in_ = X.shape[1]
+        return self
+
+    def predict(self, X):
+        X = np.asarray(X, dtype=np.float64)
+        return self.intercept_ + self.coef_ * X.reshape(X.shape[0], -1)[:, 0]
